@@ -71,6 +71,7 @@ func (m *Environmental) Decode(vector string) (*Environmental, error) {
 }
 
 func (m *Environmental) decodeOne(str string) error {
+	verifTrace("v2.environmental.decodeOne", m, str)
 	if err := m.Temporal.decodeOne(str); err != nil {
 		if !errs.Is(err, cvsserr.ErrNotSupportMetric) {
 			return errs.Wrap(err, errs.WithContext("metric", str))
